@@ -28,6 +28,7 @@ def run(ck, progs):
         rules_msg.check_rmw_tag_discipline(ck, P, "C06.1")
         rules_msg.check_typestate(ck, P, "C06.3", "C06.2")
         rules_msg.check_release_ownership(ck, P, "C06.4")
+        rules_msg.check_foreign_entries_untouched(ck, P, "C06.4")
         rules_msg.check_flag_access(ck, P, "C06.5")
         rules_msg.check_anti_before_rollback(ck, P, "C06.6")
         rules_msg.check_deferred_free(ck, P, "C06.7")
